@@ -806,8 +806,7 @@ def h_collapse(name: str, style: int, vis: int, twice: bool, n: int, disp: bool 
     from srctools.math import Vec, Matrix
     from srctools.instancing import Instance, InstanceFile, FixupStyle, collapse_one
     assume(len(name) == n)
-    for ch in name:     # rule 4: the name is casefolded and compared all over collapse_one: ASCII only (CrossHair's Unicode tables cost 50x)
-        assume(ch < "\x80")
+    for ch in name:
         assume(ch not in "@!")
     im = vmf.VMF()
     im.add_brush(_mk_solid(im, "dev/x", kind="disp" if disp else "wedge", sid=3, vis=(), group=None))
@@ -1023,11 +1022,11 @@ def obligations(tier):
 
     # --- Output
     combos = [("output", 0), ("target", 0), ("input", 1), ("params", 1), ("inst_out", 2), ("inst_in", 3), ("params", 4)]
-    sl = [dict(C, n=n, slot=slot, form=form, ti=ti) for n in lens for slot, form in combos for ti in ([3] if q else range(len(TIMES)))
+    sl = [dict(C, n=n, slot=slot, form=form, ti=ti) for n in lens for slot, form in combos for ti in ([3] if (q or n == 2) else range(len(TIMES)))
           if not (q and n == 0 and slot not in ("target", "inst_out"))]
     sl += [{"s": CONC, "n": len(CONC), "ti": ti, "comma": c, "slot": "params", "form": f, "lo": 0, "hi": 9}
            for f in range(len(OUT_FORMS)) for ti, c in ((3, False), (1, True))]
-    obls.append(Obl("output", MOD, "h_output", slices=sl, budget_s=600, per_path_s=60,
+    obls.append(Obl("output", MOD, "h_output", slices=sl, budget_s=600 if q else 2400, per_path_s=60,
                     desc="Output.copy(): symbolic str leaf, times by index, symbolic comma_sep: complete (fields + export); one mutation of "
                          "either side invisible on the other", bound="one str leaf of exact length, times from [-1,1,0,7,2**31]"))
     obls.append(Obl("output_fields", MOD, "h_output_fields", slices=[{"n": 1, "slot": "params", "form": f} for f in range(len(OUT_FORMS))],
